@@ -768,7 +768,11 @@ func zzConnProcessResult() {
 	case 5:
 		err = fmt.Errorf("wrapped: %w", ErrMethodNotFound)
 	}
+	// the handler's result may be something the encoder refuses (NaN, a failing MarshalJSON): the caller still gets an
+	// answer — an error (D18: it used to get none)
+	zzMarshalMayFail, zzMarshalFailed = kind == 0, false
 	g.c.processResult("harness", g.myReq, result, err)
+	zzMarshalMayFail = false
 	vAssert(g.myIn == 0, "C02.token-returned-exactly-once")
 	vAssert(g.myReq.ctx.Err() != nil, "C02.request-context-released")
 	vAssert(!g.myReqIn, "C02.id-released")
@@ -777,8 +781,12 @@ func zzConnProcessResult() {
 		if r, ok := m.(*Response); ok {
 			responses++
 			vAssert(r.ID == g.myReq.ID, "C02.response-echoes-id")
-			if kind == 0 {
+			if kind == 0 && !zzMarshalFailed {
 				vAssert(r.Error == nil && r.Result != nil, "C02.result-carried")
+			}
+			if kind == 0 && zzMarshalFailed {
+				vAssert(r.Error != nil && r.Result == nil, "C02.unencodable-result-answered-with-an-error")
+				vReach("unencodable")
 			}
 			if kind == 1 || kind == 3 {
 				vAssert(r.Error != nil, "C02.error-carried")
